@@ -712,12 +712,28 @@ impl Driver for Worker<'_> {
 }
 
 // --- merge-on-drop guards ------------------------------------------------------------------------
+/// Drops a guard either plainly or by the unwinding of a (caught) panic of its owner.
+fn drop_guard<G>(g: G, unwinding: bool) {
+    if unwinding {
+        let r = std::panic::catch_unwind(std::panic::AssertUnwindSafe(move || {
+            let _owned = g;
+            std::panic::panic_any(ExpectedUnwind);
+        }));
+        assert!(r.is_err());
+    } else {
+        drop(g);
+    }
+}
+struct ExpectedUnwind;
+
 /// `CloseAndMergeOnDrop` guards into a MutexSink; `merge` = drop the next guard in the drop order
 struct GuardMutex {
     sink: MutexSink<Aggregate<Flat>>,
     guards: Vec<Option<CloseAndMergeOnDrop<Flat, MutexSink<Aggregate<Flat>>>>>,
     order: Vec<usize>,
     next: usize,
+    /// bit i: the i-th drop of the history happens by unwinding
+    unwind: u32,
 }
 const B_GUARD_MUTEX: [Branch; 1] =
     [Branch { name: "close-and-merge-on-drop-into-mutex", key: KeyKind::None, has_inner: true, raw: false, const_hash: false, family: Family::Guard }];
@@ -730,8 +746,9 @@ impl Driver for GuardMutex {
     }
     fn merge(&mut self, _k: usize, _p: usize) {
         let g = self.guards[self.order[self.next]].take().expect("guard dropped twice by the harness");
+        let unwinding = self.unwind >> self.next & 1 == 1;
         self.next += 1;
-        drop(g);
+        drop_guard(g, unwinding);
     }
     fn flush(&mut self) -> Vec<Vec<TestEntry>> {
         vec![vec![test_metric(ParentMx { agg: self.sink.clone(), id: "p" })]]
@@ -744,6 +761,8 @@ struct GuardWorkerRec<'a> {
     guards: Vec<Option<CloseAndMergeOnDrop<Rec, WorkerSink<RecEntry, TeeInner<VSink<Rec>, VSink<ByCollide>, RawSink>>>>>,
     order: Vec<usize>,
     next: usize,
+    /// bit i: the i-th drop of the history happens by unwinding
+    unwind: u32,
 }
 const B_GUARD_WORKER_REC: [Branch; 3] = [
     Branch { name: "close-and-merge-on-drop-into-worker", key: KeyKind::Name, has_inner: false, raw: false, const_hash: false, family: Family::Guard },
@@ -756,8 +775,9 @@ impl Driver for GuardWorkerRec<'_> {
     }
     fn merge(&mut self, _k: usize, _p: usize) {
         let g = self.guards[self.order[self.next]].take().expect("guard dropped twice by the harness");
+        let unwinding = self.unwind >> self.next & 1 == 1;
         self.next += 1;
-        drop(g);
+        drop_guard(g, unwinding);
     }
     fn flush(&mut self) -> Vec<Vec<TestEntry>> {
         futures::executor::block_on(self.rig.sink.flush());
@@ -775,6 +795,8 @@ struct GuardWorkerDirect<'a> {
     guards: Vec<Option<MergeOnDrop<Direct, WorkerSink<Direct, KeyedAggregator<Direct, VSink<Direct>>>>>>,
     order: Vec<usize>,
     next: usize,
+    /// bit i: the i-th drop of the history happens by unwinding
+    unwind: u32,
 }
 const B_GUARD_WORKER_DIRECT: [Branch; 1] =
     [Branch { name: "merge-on-drop-into-worker", key: KeyKind::NameShard, has_inner: true, raw: false, const_hash: false, family: Family::Guard }];
@@ -784,8 +806,9 @@ impl Driver for GuardWorkerDirect<'_> {
     }
     fn merge(&mut self, _k: usize, _p: usize) {
         let g = self.guards[self.order[self.next]].take().expect("guard dropped twice by the harness");
+        let unwinding = self.unwind >> self.next & 1 == 1;
         self.next += 1;
-        drop(g);
+        drop_guard(g, unwinding);
     }
     fn flush(&mut self) -> Vec<Vec<TestEntry>> {
         futures::executor::block_on(self.rig.dsink.flush());
@@ -1130,6 +1153,12 @@ struct WSt {
 
 fn main() {
     let mut rep = Report::from_args("C10", "model_checking");
+    let default_hook = std::panic::take_hook();
+    std::panic::set_hook(Box::new(move |info| {
+        if !info.payload().is::<ExpectedUnwind>() {
+            default_hook(info);
+        }
+    }));
     let tier = rep.tier;
     let mut all = St::default();
 
@@ -1174,10 +1203,11 @@ fn main() {
         let seqs = 3u64.pow(n as u32);
         let masks = 1u64 << (n - 1);
         let muts = 1u64 << n;
-        let total = seqs * perms.len() as u64 * masks * muts;
+        let unwinds = 1u64 << n;
+        let total = seqs * perms.len() as u64 * masks * muts * unwinds;
         let states = par::for_each_index(total, 64, St::default, |st, idx| {
-            let mut d = [0u64; 4];
-            par::decode(idx, &[seqs, perms.len() as u64, masks, muts], &mut d);
+            let mut d = [0u64; 5];
+            par::decode(idx, &[seqs, perms.len() as u64, masks, muts, unwinds], &mut d);
             let ps: Vec<u8> = (0..n).map(|i| ((d[0] / 3u64.pow(i as u32)) % 3) as u8).collect();
             let order = perms[d[1] as usize].clone();
             let sink = MutexSink::new(Aggregate::<Flat>::default());
@@ -1197,9 +1227,9 @@ fn main() {
                 })
                 .collect();
             let inputs: Vec<(u8, u8)> = order.iter().map(|&g| (0, ps[g])).collect();
-            let h = Hist { inputs: &inputs, mask: d[2] as u32, extra: Some(json!({"created": ps, "drop_order": order, "overwritten_through_deref_mut": d[3]})) };
+            let h = Hist { inputs: &inputs, mask: d[2] as u32, extra: Some(json!({"created": ps, "drop_order": order, "overwritten_through_deref_mut": d[3], "drops_by_unwinding_a_caught_panic (bit i = i-th drop)": d[4]})) };
             st.histories += 1;
-            run(st, &mut GuardMutex { sink, guards, order, next: 0 }, &h);
+            run(st, &mut GuardMutex { sink, guards, order, next: 0, unwind: d[4] as u32 }, &h);
         });
         for s in states {
             guard_histories += s.histories;
@@ -1261,44 +1291,47 @@ fn main() {
             let h = Hist { inputs: &inputs, mask: d[2] as u32, extra: Some(extra) };
             w.guard_histories += 1;
             w.st.histories += 1;
-            // entry mode: CloseAndMergeOnDrop<Rec, WorkerSink<..>>
-            let guards = (0..n)
-                .map(|i| {
-                    let (k, p) = (kp[i].0 as usize, kp[i].1 as usize);
-                    if i % 2 == 1 {
-                        let mut g = rec((k + 1) % 2, (p + 1) % 3).close_and_merge(w.rig.sink.clone());
-                        let want = rec(k, p);
-                        g.name = want.name;
-                        g.total = want.total;
-                        g.obs = want.obs;
-                        g.last = want.last;
-                        Some(g)
-                    } else {
-                        Some(rec(k, p).close_and_merge(w.rig.sink.clone()))
-                    }
-                })
-                .collect();
-            run(&mut w.st, &mut GuardWorkerRec { rig: &w.rig, guards, order: order.clone(), next: 0 }, &h);
-            // direct mode: MergeOnDrop<Direct, WorkerSink<..>>
-            let guards = (0..n)
-                .map(|i| {
-                    let (k, p) = (kp[i].0 as usize, kp[i].1 as usize);
-                    if i % 2 == 1 {
-                        let mut g = direct((k + 1) % 2, (p + 1) % 3).merge(w.rig.dsink.clone());
-                        let want = direct(k, p);
-                        g.name = want.name;
-                        g.shard = want.shard;
-                        g.total = want.total;
-                        g.obs = want.obs;
-                        g.last = want.last;
-                        g.inner.inner_count = want.inner.inner_count;
-                        Some(g)
-                    } else {
-                        Some(direct(k, p).merge(w.rig.dsink.clone()))
-                    }
-                })
-                .collect();
-            run(&mut w.st, &mut GuardWorkerDirect { rig: &w.rig, guards, order, next: 0 }, &h);
+            // every history twice: all guards dropped plainly / every second drop by unwinding a caught panic
+            for unwind in [0u32, 0b1010_1010] {
+                // entry mode: CloseAndMergeOnDrop<Rec, WorkerSink<..>>
+                let guards = (0..n)
+                    .map(|i| {
+                        let (k, p) = (kp[i].0 as usize, kp[i].1 as usize);
+                        if i % 2 == 1 {
+                            let mut g = rec((k + 1) % 2, (p + 1) % 3).close_and_merge(w.rig.sink.clone());
+                            let want = rec(k, p);
+                            g.name = want.name;
+                            g.total = want.total;
+                            g.obs = want.obs;
+                            g.last = want.last;
+                            Some(g)
+                        } else {
+                            Some(rec(k, p).close_and_merge(w.rig.sink.clone()))
+                        }
+                    })
+                    .collect();
+                run(&mut w.st, &mut GuardWorkerRec { rig: &w.rig, guards, order: order.clone(), next: 0, unwind: unwind >> 1 }, &h);
+                // direct mode: MergeOnDrop<Direct, WorkerSink<..>>
+                let guards = (0..n)
+                    .map(|i| {
+                        let (k, p) = (kp[i].0 as usize, kp[i].1 as usize);
+                        if i % 2 == 1 {
+                            let mut g = direct((k + 1) % 2, (p + 1) % 3).merge(w.rig.dsink.clone());
+                            let want = direct(k, p);
+                            g.name = want.name;
+                            g.shard = want.shard;
+                            g.total = want.total;
+                            g.obs = want.obs;
+                            g.last = want.last;
+                            g.inner.inner_count = want.inner.inner_count;
+                            Some(g)
+                        } else {
+                            Some(direct(k, p).merge(w.rig.dsink.clone()))
+                        }
+                    })
+                    .collect();
+                run(&mut w.st, &mut GuardWorkerDirect { rig: &w.rig, guards, order: order.clone(), next: 0, unwind }, &h);
+            }
         },
     );
     let (mut worker_guard_histories, mut worker_histories, mut worker_instances) = (0u64, 0u64, 0u64);
